@@ -24,7 +24,8 @@ field - version, OID, parameters, key tag, key of 0..140 bytes, inner OCTET STRI
 with any declared length, long-form lengths, trailing bytes - with all enclosing lengths recomputed). Oracle: the generated DER and PEM private \
 key parse to a secret whose public key equals the parsed generated public key; an Ed25519 pair built by the harness (SHA-512, \
 clamp, base-point multiplication with curve25519-dalek) in OpenSSL DER form converts to a matching X25519 pair; PEM == DER; \
-concatenated PEM public keys parse to the same keys in order; canonical layouts always parse; on any input no panic; when a \
+concatenated PEM public keys parse to the same keys in order, and a bundle holding the mutated key between two valid \
+ones is accepted exactly when the mutated key is accepted on its own; canonical layouts always parse; on any input no panic; when a \
 DER input is accepted, the harness's own lenient TLV walk must extract the same key bytes, and the input must be the \
 documented structure - SEQUENCE { [INTEGER,] SEQUENCE { OID X25519 | Ed25519 }, key field of exactly 32 key bytes } with \
 nothing else inside any container (tolerated, as the DER library does on the pinned tree: tag class bits, non-minimal \
@@ -456,6 +457,22 @@ fn oracle(c: &Case, st: &mut Stats) -> Result<(), String> {
                 vec![(a, true), (b, false), (pa, true)]
             }
         };
+        // ---- a bundle of PEM public keys holding the mutated one: an error of one block is an error of the bundle
+        if let Some((bad, _)) = inputs.iter().find(|(_, private)| !*private) {
+            let k0 = x25519_dalek::x25519(util::seed32(seed[1] as u64, "c18-bundle", 0), x25519_dalek::X25519_BASEPOINT_BYTES);
+            let mut d0 = cli::PUB_PREFIX_X.to_vec();
+            d0.extend_from_slice(&k0);
+            let text = format!("{}{}{}", pem("PUBLIC KEY", &d0, 64, false, true), pem("PUBLIC KEY", bad, 64, false, true), pem("PUBLIC KEY", &pub_der, 64, false, true));
+            let alone = parse_openssl_25519_pubkey_der(bad).ok().map(|p| *p.as_bytes());
+            let many = parse_openssl_25519_pubkeys_pem_many(text.as_bytes()).ok().map(|v| v.iter().map(|p| *p.as_bytes()).collect::<Vec<_>>());
+            match (alone, many) {
+                (None, Some(v)) => return Err(format!("a bundle of 3 PEM public keys whose second key ({}) is rejected on its own is accepted as {} key(s)", hex::encode(bad), v.len())),
+                (Some(k), Some(v)) if v != vec![k0, k, *pk.as_bytes()] => return Err("a bundle of 3 PEM public keys parses to other keys than its blocks parsed one by one".into()),
+                (Some(_), None) => return Err(format!("a bundle of 3 PEM public keys is rejected although each block parses on its own (second: {})", hex::encode(bad))),
+                (None, None) => st.label("bundle with an invalid key rejected"),
+                _ => {}
+            }
+        }
         for (data, private) in inputs {
             if private {
                 let r1 = parse_openssl_25519_privkey_der(&data);
